@@ -392,6 +392,10 @@ def grid_pairs(tier):
       ('coarse lon 3->3 offset', G(M=1, L=2, nlon=3, nlat=3), G(M=1, L=2, nlon=3, nlat=4, offset=1.0471975511965976)),
       ('coarse lon 4->3 offset', G(M=1, L=2, nlon=4, nlat=3), G(M=1, L=2, nlon=3, nlat=3, offset=0.2617993877991494)),
       ('coarse lon 5->4 offset', G(M=2, L=3, nlon=5, nlat=4), G(M=1, L=2, nlon=4, nlat=3, offset=0.4)),
+      # the SAME node counts on both sides but a different layout: other latitude spacing, shifted longitudes, both
+      ('gauss12x6->equiangular12x6', G(M=3, L=4, nlon=12, nlat=6), G(M=3, L=4, nlon=12, nlat=6, spacing='equiangular')),
+      ('gauss12x6->gauss12x6 shifted 0.3 cell', G(M=3, L=4, nlon=12, nlat=6), G(M=3, L=4, nlon=12, nlat=6, offset=0.15707963267948966)),
+      ('equiangular10x7->poles10x7 shifted', G(M=3, L=4, nlon=10, nlat=7, spacing='equiangular', offset=0.2), G(M=3, L=4, nlon=10, nlat=7, spacing='equiangular_with_poles')),
   ]
   if tier != 'quick':
     pairs += [('gauss32x16->equiangular20x11', G(M=8, L=9, nlon=32, nlat=16), G(M=5, L=6, nlon=20, nlat=11, spacing='equiangular')),
